@@ -9,8 +9,9 @@
 (*                                                                         *)
 (* Reference: LoadRef.  Implementation-shaped layer: load() = strload()    *)
 (* behind an LRU cache keyed on the argument (which must be hashable),     *)
-(* JSON first, then literal_eval, else the decoded text.  TLC explores     *)
-(* every call history over the pool and checks CarrierFree / LoadAgrees.   *)
+(* JSON first, then literal_eval, else the decoded text; a caller may       *)
+(* modify a container it was given (MutateLast).  TLC explores every       *)
+(* history over the pool and checks CarrierFree / LoadAgrees.              *)
 (***************************************************************************)
 EXTENDS Naturals, Sequences, FiniteSets, TLC
 
@@ -18,6 +19,8 @@ CONSTANTS Texts,          \* pool of texts
           Json,           \* [Texts -> value or "notjson"]
           Literal,        \* [Texts -> BOOLEAN]
           DecodeFirst,    \* TRUE: load() decodes every carrier to str before the memoised strload (current code)
+          HandsOutCopy,   \* TRUE: a decoded container is returned as a deep copy of the memo's object (current code);
+                          \* FALSE: the memo's own object is returned (pinned snapshot; "shallow" is the same one level down)
           MaxCalls
 
 Carriers == {"str", "bytes", "bytearray", "mvb", "mvba"}
@@ -32,14 +35,15 @@ LoadRefOK(s, out) ==
   ELSE IF ~Literal[s] THEN out = [k |-> "text", v |-> s]
   ELSE out.k \in {"val", "text", "lit"}
 
-VARIABLES cache, calls, last
-vars == <<cache, calls, last>>
+VARIABLES cache, soiled, calls, last     \* soiled: memo keys whose stored container a caller has modified
+vars == <<cache, soiled, calls, last>>
+Container(s) == (Json[s] # "notjson" /\ Json[s] \notin {"int1", "none"}) \/ (Json[s] = "notjson" /\ Literal[s] /\ s # "1")
 
 Compute(s) == IF Json[s] # "notjson" THEN [k |-> "val", v |-> Json[s]]
               ELSE IF Literal[s] THEN [k |-> "lit", v |-> s]
               ELSE [k |-> "text", v |-> s]
 
-Init == cache = {} /\ calls = 0 /\ last = [c |-> "-", s |-> "-", out |-> [k |-> "none", v |-> "-"]]
+Init == cache = {} /\ soiled = {} /\ calls = 0 /\ last = [c |-> "-", s |-> "-", out |-> [k |-> "none", v |-> "-"]]
 
 Load(c, s) ==
   /\ calls < MaxCalls
@@ -47,9 +51,17 @@ Load(c, s) ==
   /\ IF ~DecodeFirst /\ ~Hashable(c)
      THEN /\ last' = [c |-> c, s |-> s, out |-> [k |-> "raised", v |-> "TypeError"]]   \* lru_cache hashes its argument
           /\ cache' = cache
-     ELSE /\ last' = [c |-> c, s |-> s, out |-> Compute(s)]          \* hit or miss: same value
+     ELSE /\ last' = [c |-> c, s |-> s,                                \* hit or miss: the same value, unless soiled
+                      out |-> IF KeyOf(c, s) \in soiled THEN [k |-> "soiled", v |-> s] ELSE Compute(s)]
           /\ cache' = cache \cup {KeyOf(c, s)}
-Next == \E c \in Carriers, s \in Texts : Load(c, s)
+  /\ soiled' = soiled
+\* the caller modifies the container it was last given (appends to a list, sets a key, also below the top level)
+MutateLast ==
+  /\ calls < MaxCalls /\ last.c # "-" /\ last.out.k \in {"val", "lit"} /\ Container(last.s)
+  /\ calls' = calls + 1
+  /\ soiled' = IF HandsOutCopy THEN soiled ELSE soiled \cup {KeyOf(last.c, last.s)}
+  /\ UNCHANGED <<cache, last>>
+Next == (\E c \in Carriers, s \in Texts : Load(c, s)) \/ MutateLast
 Spec == Init /\ [][Next]_vars
 
 \* every carrier of the same text gives the same outcome, whatever was loaded before
